@@ -1108,6 +1108,14 @@ class SocketAsyncRPCClient(_SocketClientState, BaseAsyncRPCClient):
         self._pending[call_id] = _PendingCall(call, future)
         try:
             await _send_stream_message(self._writer, call_id, request)
+        except asyncio.CancelledError:
+            # The message is handed to the transport before anything is awaited,
+            # so a caller that is cancelled while waiting for the write buffer to drain
+            # has sent its request all the same, and the server will answer it.
+            # The entry stays, for the receive loop to discard that response,
+            # and the future is cancelled because nobody is going to await it.
+            future.cancel()
+            raise
         except BaseException:
             # A request that was not sent gets no response, so this future is never awaited.
             # It must not be left behind for the receive loop to fail,
